@@ -20,7 +20,7 @@
  *   h_cred --mat DIR --root DIR --family F --replay 'S:def,RWK,C:def/inh'            (one history, verbose)
  *   h_cred --mat DIR --root DIR --family F --list                                    (alphabet)
  *
- * families: main | files | attrs | kube | split | bad:file:<kind>:<item> | bad:value:<kind>:<item>
+ * families: main | files | attrs | kube | netns | split | bad:file:<kind>:<item> | bad:value:<kind>:<item>
  */
 #define _GNU_SOURCE
 #include "hcommon.h"
@@ -29,7 +29,9 @@
 #include <ftw.h>
 #include <pthread.h>
 #include <signal.h>
+#include <sched.h>
 #include <sys/mman.h>
+#include <sys/mount.h>
 #include <sys/resource.h>
 #include <sys/stat.h>
 #include <sys/time.h>
@@ -273,8 +275,16 @@ static const char *hex(const unsigned char *p, int n)
 /* ------------------------------------------------------------------------------------------ */
 /* the world: a virtual file system + XCM_TLS_CERT                                            */
 /* ------------------------------------------------------------------------------------------ */
-enum { D_LIVE, D_LINK, D_FLINK, D_BAD, D_SA, D_SB, D_KUBE, ND };
-static const char *D_NAME[ND] = { "live", "link", "flink", "bad", "sA", "sB", "kube" };
+enum { D_LIVE, D_LINK, D_FLINK, D_BAD, D_SA, D_SB, D_KUBE, D_NS0, D_NSA, D_NSB, ND };
+static const char *D_NAME[ND] = { "live", "link", "flink", "bad", "sA", "sB", "kube", "nsd", "nsd", "nsd" };
+/* network namespaces of the netns family: 0 = the unnamed start namespace, 1 = "nsA", 2 = "nsB".  All three pseudo
+   directories D_NS* are ONE directory nsd/ (the value of XCM_TLS_CERT); they differ in the file naming:
+   <item>.pem, <item>_nsA.pem, <item>_nsB.pem */
+static const char *NS_NAME[3] = { "0", "A", "B" };
+static const char *NS_SUFFIX[3] = { "", "_nsA", "_nsB" };
+static const int NS_SET[3] = { 2 /* SET_C: its own trust domain */, 0 /* SET_A */, 1 /* SET_B */ };
+static int g_use_netns;
+static int g_nsfd[3] = { -1, -1, -1 };
 enum badkind { BK_NONE, BK_MISSING, BK_EMPTY, BK_GARBAGE, BK_TRUNC, BK_DANGLING, BK_DIR, BK_MISMATCH };
 static const char *BK_NAME[] = { "none", "missing", "empty", "garbage", "trunc", "dangling", "dir", "mismatch" };
 static const char GARBAGE[] = "-----BEGIN CERTIFICATE-----\nthis is not base64 at all !!\n-----END CERTIFICATE-----\n";
@@ -327,6 +337,7 @@ static const char *vfs_content(const struct world *w, int dir, int item)
     case D_BAD: return item == g_bad_item ? bad_text(item) : g_set[SET_A][item];
     case D_SA: return g_set[SET_A][item];
     case D_SB: return g_set[SET_B][item];
+    case D_NS0: case D_NSA: case D_NSB: return g_set[NS_SET[dir - D_NS0]][item];
     case D_KUBE: {
         /* what the path RESOLVES to right now: item link -> ..data -> generation */
         int g = w->kdata;
@@ -422,10 +433,12 @@ enum opk { OP_RWF, OP_RWK, OP_MVO, OP_FLD, OP_FLF, OP_ENV, OP_BRK, OP_FIX, OP_SR
            OP_KMV,     /* rename new cert+key files over those of the current generation */
            OP_KTW,     /* rewrite the trust bundle of the current generation in place (other roots: flips acceptance) */
            OP_KTM,     /* rename a new trust bundle over it */
-           OP_ENK };   /* XCM_TLS_CERT: kube <-> live */
+           OP_ENK,     /* XCM_TLS_CERT: kube <-> live */
+           OP_SN,      /* netns family: the main thread enters namespace c1 (setns) */
+           OP_FK };    /* netns family: fork; the rest of the history runs in the child, which first enters namespace c1 */
 static const char *OPK_NAME[] = { "RWF", "RWK", "MVO", "FLD", "FLF", "ENV", "BRK", "FIX", "S", "C", "X", "XS",
-                                  "KDP", "KRW", "KMV", "KTW", "KTM", "ENK" };
-struct op { int k, c1, c2; char tok[24]; };
+                                  "KDP", "KRW", "KMV", "KTW", "KTM", "ENK", "SN", "FK" };
+struct op { int k, c1, c2; int t; /* socket op on a fresh thread that first enters namespace t (-1: calling thread) */ char tok[24]; };
 
 #define MAXOPS 32
 #define MAXD 8
@@ -442,8 +455,21 @@ static void add_op(int k, int c1, int c2)
         snprintf(o->tok, sizeof o->tok, "S:%s", CFG_NAME[c1]);
     else if (k == OP_CONN)
         snprintf(o->tok, sizeof o->tok, "C:%s/%s", CFG_NAME[c1], CFG_NAME[c2]);
+    else if (k == OP_SN || k == OP_FK)
+        snprintf(o->tok, sizeof o->tok, "%s%s", OPK_NAME[k], NS_NAME[c1]);
     else
         snprintf(o->tok, sizeof o->tok, "%s", OPK_NAME[k]);
+    o->t = -1;
+}
+
+/* the same socket operation carried out by a fresh thread that enters namespace ns first */
+static void add_op_thread(int k, int c1, int c2, int ns)
+{
+    add_op(k, c1, c2);
+    struct op *o = &g_ops[g_nops - 1];
+    o->t = ns;
+    size_t l = strlen(o->tok);
+    snprintf(o->tok + l, sizeof o->tok - l, "@t%s", NS_NAME[ns]);
 }
 
 static int parse_kind(const char *s)
@@ -492,6 +518,21 @@ static int setup_family(const char *fam)
         add_op(OP_CONN, CFG_VAL, CFG_INH);
         add_op(OP_CONN, CFG_DEF, CFG_FILE);
         add_op(OP_CONN, CFG_DEF, CFG_VAL);
+        add_op(OP_X, 0, 0);
+        add_op(OP_XS, 0, 0);
+    } else if (!strcmp(fam, "netns")) {
+        /* default credential files named after the network namespace the calling THREAD is in */
+        g_use_netns = 1;
+        add_op(OP_SN, 0, 0);
+        add_op(OP_SN, 1, 0);
+        add_op(OP_SN, 2, 0);
+        add_op(OP_FK, 1, 0);
+        add_op(OP_FK, 2, 0);
+        add_op(OP_SRV, CFG_DEF, 0);
+        add_op(OP_CONN, CFG_DEF, CFG_INH);
+        add_op_thread(OP_SRV, CFG_DEF, 0, 2);
+        add_op_thread(OP_CONN, CFG_DEF, CFG_INH, 1);
+        add_op_thread(OP_CONN, CFG_DEF, CFG_INH, 2);
         add_op(OP_X, 0, 0);
         add_op(OP_XS, 0, 0);
     } else if (!strcmp(fam, "kube")) {
@@ -572,7 +613,7 @@ static int op_by_token(const char *t)
 /* the model                                                                                  */
 /* ------------------------------------------------------------------------------------------ */
 #define MAXSOCK 8
-struct msrv { int id, cfg; struct desig attr; struct desig fin; };   /* attr: as set; fin: finalized at creation */
+struct msrv { int id, cfg; struct desig attr; struct desig fin; int ns, epoch; };   /* attr: as set; fin: finalized at creation */
 struct model {
     struct world w;
     int nsteps;                        /* operations applied */
@@ -583,6 +624,8 @@ struct model {
     int nconn;
     int conn_id[MAXSOCK];              /* open connections, oldest first */
     int next_id;
+    int cur_ns;                        /* netns family: namespace of the main thread */
+    int epoch;                         /* 1 after the fork */
 };
 
 struct expect {
@@ -595,6 +638,7 @@ struct expect {
     struct ident c, a;
     int established;
     int acfg_srv;                      /* configuration of the server the accepted socket inherits from */
+    int ctx_ns;                        /* netns family: namespace the calling thread is in */
 };
 
 static void model_init(struct model *m)
@@ -634,6 +678,17 @@ static void model_apply(struct model *m, const struct op *o, struct expect *e)
             e->feasible = 0;
         m->w.live_broken = 0;
         break;
+    case OP_SN:
+        if (m->cur_ns == o->c1)
+            e->feasible = 0;
+        m->cur_ns = o->c1;
+        break;
+    case OP_FK:
+        if (m->epoch)
+            e->feasible = 0;
+        m->epoch = 1;
+        m->cur_ns = o->c1;
+        break;
     case OP_SRV: {
         if (m->nsrv >= MAXSOCK - 1) {
             e->feasible = 0;
@@ -641,9 +696,12 @@ static void model_apply(struct model *m, const struct op *o, struct expect *e)
         }
         struct msrv s;
         s.cfg = o->c1;
+        e->ctx_ns = o->t >= 0 ? o->t : m->cur_ns;
+        s.ns = e->ctx_ns;
+        s.epoch = m->epoch;
         cfg_desig(o->c1, &s.attr);
         s.fin = s.attr;
-        desig_finalize(&s.fin, m->w.env_dir);
+        desig_finalize(&s.fin, g_use_netns ? D_NS0 + e->ctx_ns : m->w.env_dir);
         desig_eval(&s.fin, &m->w, &e->srv);
         if (e->srv.ok) {
             s.id = m->next_id++;
@@ -658,8 +716,15 @@ static void model_apply(struct model *m, const struct op *o, struct expect *e)
         }
         const struct msrv *s = &m->srv[m->nsrv - 1];
         e->acfg_srv = s->cfg;
+        e->ctx_ns = o->t >= 0 ? o->t : m->cur_ns;
+        /* emulated TCP (AF_UNIX abstract names carrying the pid) connects only within one network namespace
+           and one process, as real loopback TCP does within one namespace */
+        if (g_use_netns && (s->ns != e->ctx_ns || s->epoch != m->epoch)) {
+            e->feasible = 0;
+            break;
+        }
         cfg_desig(o->c1, &e->dc);
-        desig_finalize(&e->dc, m->w.env_dir);
+        desig_finalize(&e->dc, g_use_netns ? D_NS0 + e->ctx_ns : m->w.env_dir);
         desig_eval(&e->dc, &m->w, &e->c);
         struct desig over;
         cfg_desig(o->c2, &over);
@@ -667,7 +732,8 @@ static void model_apply(struct model *m, const struct op *o, struct expect *e)
            override them, whatever is still undesignated comes from XCM_TLS_CERT as it stands now */
         e->da_doc = s->attr;
         desig_override(&e->da_doc, &over);
-        desig_finalize(&e->da_doc, m->w.env_dir);
+        /* xcm.h: the namespace part of the file name is looked up "at the time of xcm_connect() or xcm_server()" */
+        desig_finalize(&e->da_doc, g_use_netns ? D_NS0 + s->ns : m->w.env_dir);
         desig_eval(&e->da_doc, &m->w, &e->a);
         /* alternative explanation used only to name the cause of a mismatch */
         e->da_h1 = s->fin;
@@ -699,7 +765,7 @@ static void model_apply(struct model *m, const struct op *o, struct expect *e)
     m->ophist[m->nsteps] = o->k;
 }
 
-static int world_is_update(int k) { return k <= OP_FIX || k >= OP_KDP; }
+static int world_is_update(int k) { return k <= OP_FIX || (k >= OP_KDP && k <= OP_ENK); }
 
 /* why does the observed identity differ from the designated one?  (names the signature) */
 static void mismatch_cause(const struct model *m, const struct desig *d_doc, const struct desig *d_h1,
@@ -825,7 +891,9 @@ static void internal(const char *fmt, ...)
 
 static void path_of(int dir, int item, char *out, size_t n)
 {
-    if (dir == D_SA || dir == D_SB)
+    if (dir >= D_NS0 && dir <= D_NSB)
+        snprintf(out, n, "%s/nsd/%s%s.pem", g_scratch, IT_NAME[item], NS_SUFFIX[dir - D_NS0]);
+    else if (dir == D_SA || dir == D_SB)
         snprintf(out, n, "%s/%s/%s.pem", g_static, D_NAME[dir], IT_NAME[item]);
     else
         snprintf(out, n, "%s/%s/%s.pem", g_scratch, D_NAME[dir], IT_NAME[item]);
@@ -936,6 +1004,15 @@ static void fs_setup(const struct world *w)
         }
     }
     snprintf(p, sizeof p, "%s/%s", g_scratch, D_NAME[w->env_dir]);
+    if (g_use_netns) {
+        snprintf(p, sizeof p, "%s/nsd", g_scratch);
+        mkdir(p, 0755);
+        for (int ns = 0; ns < 3; ns++)
+            for (int i = 0; i < NIT; i++) {
+                path_of(D_NS0 + ns, i, t, sizeof t);
+                write_new(t, g_set[NS_SET[ns]][i], T0);
+            }
+    }
     setenv("XCM_TLS_CERT", p, 1);
 }
 
@@ -1218,6 +1295,23 @@ static int check_local(const char *role, const char *cfgl, const struct ident *e
     return 1;
 }
 
+/* netns family: the default file names a socket settled on are visible in tls.cert_file */
+static void netns_file_check(const char *role, struct xcm_socket *sock, const struct desig *fin, int ctx_ns)
+{
+    if (!g_use_netns || fin->it[IT_CERT].form != F_FILE)
+        return;
+    char want[700], got[700] = "";
+    path_of(fin->it[IT_CERT].dir, IT_CERT, want, sizeof want);
+    int rc = CALL("xcm_attr_get", xcm_attr_get_str(sock, "tls.cert_file", got, sizeof got));
+    vlog("    %s in namespace %s: tls.cert_file = %s", role, NS_NAME[ctx_ns], rc < 0 ? ename(errno) : strrchr(got, '/') + 1);
+    if (rc < 0 || strcmp(got, want)) {
+        char sig[200];
+        snprintf(sig, sizeof sig, "C18/netns-file-naming/role=%s/tp=tls", role);
+        violation(sig, "%s called by a thread in network namespace %s: tls.cert_file is %s, the file naming of that "
+                  "namespace gives %s", role, NS_NAME[ctx_ns], rc < 0 ? ename(errno) : got, want);
+    }
+}
+
 static int do_srv(struct model *m, const struct op *o, const struct expect *e)
 {
     struct xcm_attr_map *a = attrs_of(o->c1);
@@ -1239,6 +1333,7 @@ static int do_srv(struct model *m, const struct op *o, const struct expect *e)
         if (!la)
             internal("xcm_local_addr(server) failed: %s", ename(errno));
         snprintf(r->addr, sizeof r->addr, "%s", la);
+        netns_file_check("server", s, &m->srv[m->nsrv - 1].fin, e->ctx_ns);
     }
     return 1;
 }
@@ -1258,6 +1353,8 @@ static void identity_check(struct model *m, const char *role, const char *cfgl, 
     if (*seen_len != exp->ski_len || memcmp(seen, exp->ski, exp->ski_len)) {
         char cause[96], sig[200];
         mismatch_cause(m, d_doc, d_h1, seen, *seen_len, cause, sizeof cause);
+        if (g_use_netns)
+            snprintf(cause, sizeof cause, "files-of-another-network-namespace");
         snprintf(sig, sizeof sig, "C18/identity/role=%s/cfg=%s/%s/tp=tls", role, cfgl, cause);
         violation(sig, "the %s side designated the certificate with subject key id %s (cn %s) when the call was made, "
                   "but its peer sees %s (cn %s)", role, hex(exp->ski, exp->ski_len), exp->cn, hex(seen, *seen_len), cn);
@@ -1288,6 +1385,7 @@ static int do_conn(struct model *m, const struct op *o, const struct expect *e)
         return 0;
     if (!c)
         return 1;
+    netns_file_check("connect", c, &e->dc, e->ctx_ns);
     /* accept */
     struct xcm_attr_map *aa = attrs_of(o->c2);
     struct xcm_socket *a = NULL;
@@ -1466,6 +1564,29 @@ static void ctx_bound(const struct op *last)
     }
 }
 
+struct thr_arg { struct model *m; const struct op *o; const struct expect *e; int go; };
+static void *thr_main(void *p)
+{
+    struct thr_arg *a = p;
+    if (setns(g_nsfd[a->o->t], CLONE_NEWNET) < 0)
+        internal("setns in thread: %s", strerror(errno));
+    a->go = a->o->k == OP_SRV ? do_srv(a->m, a->o, a->e) : do_conn(a->m, a->o, a->e);
+    return NULL;
+}
+
+/* a socket operation on the calling thread, or on a fresh thread that enters its namespace first and ends afterwards */
+static int socket_op(struct model *m, const struct op *o, const struct expect *e)
+{
+    if (o->t < 0)
+        return o->k == OP_SRV ? do_srv(m, o, e) : do_conn(m, o, e);
+    struct thr_arg a = { m, o, e, 0 };
+    pthread_t th;
+    if (pthread_create(&th, NULL, thr_main, &a) != 0)
+        internal("pthread_create failed");
+    pthread_join(th, NULL);
+    return a.go;
+}
+
 static void run_history(const uint8_t *ops, int len)
 {
     struct model m;
@@ -1488,8 +1609,32 @@ static void run_history(const uint8_t *ops, int len)
             internal("history is not feasible at step %d (%s)", i + 1, o->tok);
         int go = 1;
         switch (o->k) {
-        case OP_SRV: go = do_srv(&m, o, &e); break;
-        case OP_CONN: go = do_conn(&m, o, &e); break;
+        case OP_SRV: case OP_CONN: go = socket_op(&m, o, &e); break;
+        case OP_SN:
+            if (setns(g_nsfd[o->c1], CLONE_NEWNET) < 0)
+                internal("setns: %s", strerror(errno));
+            break;
+        case OP_FK: {
+            fflush(stdout);
+            pid_t pid = fork();
+            if (pid < 0)
+                internal("fork: %s", strerror(errno));
+            if (pid > 0) {
+                /* the rest of the history (and the verdict, through the shared record) is the child's */
+                int st = 0;
+                while (waitpid(pid, &st, 0) < 0 && errno == EINTR)
+                    ;
+                if (WIFSIGNALED(st)) {
+                    signal(WTERMSIG(st), SIG_DFL);
+                    raise(WTERMSIG(st));
+                }
+                _exit(WIFEXITED(st) ? WEXITSTATUS(st) : 3);
+            }
+            alarm(60);
+            if (setns(g_nsfd[o->c1], CLONE_NEWNET) < 0)
+                internal("setns after fork: %s", strerror(errno));
+            break;
+        }
         case OP_X:
             CALL("xcm_close", xcm_close(g_conn[0].c));
             CALL("xcm_close", xcm_close(g_conn[0].a));
@@ -1713,8 +1858,65 @@ static int run_one(struct crec *rec, const struct hist *h, int verbose)
     return abandoned ? 2 : 0;
 }
 
+/* netns family fixture, made once per worker (like the static certificate directories it never changes): a private
+   mount namespace in which the named-namespace directory is a tmpfs holding nsA and nsB - bind mounts of two new network
+   namespaces, which is all `ip netns add` does - and descriptors for setns().  Returns 0, or -errno of the refused step. */
+static int netns_setup(char *why, size_t n)
+{
+    const char *step = "unshare(CLONE_NEWNS)";
+    if (unshare(CLONE_NEWNS) < 0)
+        goto refused;
+    step = "mount --make-rprivate /";
+    if (mount(NULL, "/", NULL, MS_REC | MS_PRIVATE, NULL) < 0)
+        goto refused;
+    struct stat st;
+    if (stat("/run/netns", &st) == 0) {
+        step = "mount tmpfs /run/netns";
+        if (mount("tmpfs", "/run/netns", "tmpfs", 0, NULL) < 0)
+            goto refused;
+    } else {
+        step = "mount tmpfs /run";
+        if (mount("tmpfs", "/run", "tmpfs", 0, NULL) < 0)
+            goto refused;
+        mkdir("/run/netns", 0755);
+    }
+    step = "open /proc/self/ns/net";
+    if ((g_nsfd[0] = open("/proc/self/ns/net", O_RDONLY | O_CLOEXEC)) < 0)
+        goto refused;
+    for (int ns = 1; ns <= 2; ns++) {
+        char p[64];
+        step = "unshare(CLONE_NEWNET)";
+        if (unshare(CLONE_NEWNET) < 0)
+            goto refused;
+        snprintf(p, sizeof p, "/run/netns/ns%s", NS_NAME[ns]);
+        int fd = open(p, O_WRONLY | O_CREAT | O_EXCL, 0444);
+        if (fd >= 0)
+            close(fd);
+        step = "bind mount /proc/self/ns/net";
+        if (mount("/proc/self/ns/net", p, NULL, MS_BIND, NULL) < 0)
+            goto refused;
+        step = "open /proc/self/ns/net";
+        if ((g_nsfd[ns] = open("/proc/self/ns/net", O_RDONLY | O_CLOEXEC)) < 0)
+            goto refused;
+    }
+    step = "setns";
+    if (setns(g_nsfd[0], CLONE_NEWNET) < 0)
+        goto refused;
+    return 0;
+refused:
+    snprintf(why, n, "%s: %s", step, strerror(errno));
+    return -1;
+}
+
 static void worker(int wid)
 {
+    if (g_use_netns) {
+        char why[160];
+        if (netns_setup(why, sizeof why) < 0) {
+            sh_broke("netns fixture failed in a worker although the probe succeeded: %s", why);
+            return;
+        }
+    }
     snprintf(g_scratch, sizeof g_scratch, "%s/w%d", g_root_dir, wid);
     struct crec *rec = mmap(NULL, sizeof *rec, PROT_READ | PROT_WRITE, MAP_SHARED | MAP_ANONYMOUS, -1, 0);
     for (;;) {
@@ -1760,8 +1962,37 @@ static double cpu_children_s(void)
     return ru.ru_utime.tv_sec + ru.ru_stime.tv_sec + (ru.ru_utime.tv_usec + ru.ru_stime.tv_usec) / 1e6;
 }
 
+/* can this process do what the netns family needs?  (tried in a throw-away child) */
+static int netns_probe(char *why, size_t n)
+{
+    char *shared = mmap(NULL, 256, PROT_READ | PROT_WRITE, MAP_SHARED | MAP_ANONYMOUS, -1, 0);
+    shared[0] = 0;
+    fflush(stdout);
+    pid_t pid = fork();
+    if (pid == 0) {
+        char w[160] = "";
+        int rc = netns_setup(w, sizeof w);
+        snprintf(shared, 256, "%s", w);
+        _exit(rc < 0 ? 1 : 0);
+    }
+    int st = 0;
+    while (waitpid(pid, &st, 0) < 0 && errno == EINTR)
+        ;
+    snprintf(why, n, "%s", shared);
+    return WIFEXITED(st) && WEXITSTATUS(st) == 0 ? 0 : -1;
+}
+
 static int bfs(int depth, int jobs, double deadline)
 {
+    if (g_use_netns) {
+        char why[200];
+        if (netns_probe(why, sizeof why) < 0) {
+            printf("{\"kind\":\"skipped\",\"family\":\"netns\",\"reason\":");
+            json_str(stdout, why);
+            printf("}\n{\"kind\":\"done\",\"family\":\"netns\",\"deadline_hit\":false}\n");
+            return 0;
+        }
+    }
     double t0 = now_s();
     g_deadline_at = t0 + deadline;
     S = mmap(NULL, sizeof *S, PROT_READ | PROT_WRITE, MAP_SHARED | MAP_ANONYMOUS, -1, 0);
@@ -1916,6 +2147,13 @@ static int replay(const char *s)
         }
     }
     printf("family %s, history %s\n", g_family, s);
+    if (g_use_netns) {
+        char why[200];
+        if (netns_setup(why, sizeof why) < 0) {
+            printf("netns family skipped (no privilege): %s\nVERDICT skipped\n", why);
+            return 0;
+        }
+    }
     run_one(rec, &h, 1);
     rm_rf(g_scratch);
     for (int i = 0; i < S->nviol; i++)
